@@ -48,3 +48,14 @@ VARIANTS += [
       rule='C07-OBSERVED', key='calc_unique_values'),
     M('C07', 'refactor-value_counts-filtered', E(PC, "        values = self.df[colname].unique()\n        nullvalues", "        vc = self.df[colname].value_counts(dropna=False, sort=False)\n        values = vc[vc > 0].index\n        nullvalues"), kind='refactor'),
 ]
+
+VARIANTS += [
+    M('C07', 'integer-test-anchored-misses-unsigned', E(PC, "    if type(x) in (int, long_type) or 'int' in dts:", "    if type(x) in (int, long_type) or re.match(r'int\\d+', dts):"),
+      rule='C07-DTYPES', key='dtype=uint8'),
+    M('C07', 'float-test-misses-nullable', E(PC, "    if type(x) == float or 'float' in dts:", "    if type(x) == float or dts in ('float32', 'float64'):"),
+      rule='C07-DTYPES', key='dtype=float16'),
+    M('C07', 'bool-tested-after-int', [E(PC, "    if type(x) == bool or 'bool' in dts:\n        return 'bool'\n", ""),
+                                       E(PC, "    if type(x) == float or 'float' in dts:\n        return 'real'\n", "    if type(x) == float or 'float' in dts:\n        return 'real'\n    if type(x) == bool or 'bool' in dts:\n        return 'bool'\n")],
+      kind='refactor'),
+    M('C07', 'refactor-int-test-by-regex-search', E(PC, "    if type(x) in (int, long_type) or 'int' in dts:", "    if type(x) in (int, long_type) or re.search(r'int', dts):"), kind='refactor'),
+]
